@@ -3,7 +3,7 @@ import NA.Model.VpnGraphCert
 # Strict device for fragment H (specification side)
 
 The device of fragment G plus the `tunnel-group-map` rules, the toplevel `webvpn` with its `certificate-group-map` rules, and
-the webvpn mode.  Refused in addition: a rule that references a certificate map or tunnel-group that does not exist; `no` for a
+the webvpn mode.  Refused in addition: a rule that references a certificate map or tunnel-group that does not exist, or names an index for which the certificate map has no entry; `no` for a
 rule that is not there (exact text); a `certificate-group-map` outside webvpn mode; toplevel `webvpn` typed while the mode of a
 group-policy or username is open (that mode has a sub-mode of the same name: the command would not reach the toplevel); a
 sub-command of fragment G typed in webvpn mode; deleting an object that a rule still references.
@@ -25,6 +25,12 @@ def sameSlot (r q : Rule) : Bool := r.cm == q.cm && (r.cm.isNone || r.seq == q.s
 def putRule (l : List Rule) (r : Rule) : List Rule :=
   if l.any (sameSlot r) then l.map fun q => if sameSlot r q then r else q else l ++ [r]
 
+/-- the rule names an entry of its certificate map: `crypto ca certificate map CM SEQ` exists (nothing to check for default-group) -/
+def HDev.entryOk (x : HDev) (r : Rule) : Bool :=
+  match r.cm with
+  | some n => (x.d.obj (Kind.certmap, n)).any fun o => o.secs.any fun s => s.head == r.seq
+  | none => true
+
 def isToplevel : Chg → Bool
   | .sub _ _ _ _ _ => false
   | .exit => false
@@ -44,11 +50,11 @@ def execH1 (x : HDev) : Cmd2 → Option HDev
     if inGpUser x.d.mode then none
     else some { x with d := { x.d with mode := none }, web := some (x.web.getD []), wmode := true }
   | .h (.tgmap false r) =>
-    if r.refs.all x.d.defined then some { x with d := { x.d with mode := none }, tgmap := putRule x.tgmap r, wmode := false } else none
+    if r.refs.all x.d.defined && x.entryOk r then some { x with d := { x.d with mode := none }, tgmap := putRule x.tgmap r, wmode := false } else none
   | .h (.tgmap true r) =>
     if x.tgmap.contains r then some { x with d := { x.d with mode := none }, tgmap := x.tgmap.filter (· != r), wmode := false } else none
   | .h (.cgm false r) =>
-    if x.wmode && r.refs.all x.d.defined then some { x with web := some (putRule (x.web.getD []) r) } else none
+    if x.wmode && r.refs.all x.d.defined && x.entryOk r then some { x with web := some (putRule (x.web.getD []) r) } else none
   | .h (.cgm true r) =>
     if x.wmode && (x.web.getD []).contains r then some { x with web := some ((x.web.getD []).filter (· != r)) } else none
 
